@@ -975,6 +975,15 @@ func (c *FnCtx) run() {
 		c.regs[p] = Val{kind: vTerm, t: t}
 		c.params[p.Name()] = TV{t, p.Type()}
 	}
+	// a `params` clause renames the parameters for the contract (a parameter named like a type, say);
+	// the body view sees the same names as the call sites
+	if len(c.spec.Params) == len(fn.Params) {
+		for i, p := range fn.Params {
+			if _, taken := c.params[c.spec.Params[i]]; !taken {
+				c.params[c.spec.Params[i]] = c.params[p.Name()]
+			}
+		}
+	}
 	for _, fv := range fn.FreeVars {
 		r := c.val(fv)
 		// captured variable x is visible in specs by name, as the pointee value at entry (via load at use)
